@@ -852,7 +852,7 @@ fn named4_for(thorough: bool) -> Vec<Cfg> {
     if thorough {
         return with_orders(named4());
     }
-    let keep = ["diamond-S-middle", "agg-over-two-services", "agg-over-B+S", "nested-aggregates", "B-S-B-chain", "two-roots-sharing-leaf", "dep-before-dependent", "dependent-before-dep", "build-over-aggregate-of-two-builds", "service-over-aggregate-of-build-and-service"];
+    let keep = ["diamond-S-middle", "agg-over-two-services", "agg-over-B+S", "nested-aggregates", "B-S-B-chain", "two-roots-sharing-leaf", "dep-before-dependent", "dependent-before-dep", "build-over-aggregate-of-two-builds", "service-over-aggregate-of-build-and-service", "aggregate-diamond"];
     named4().into_iter().filter(|c| keep.contains(&c.name.as_str())).collect()
 }
 
@@ -1340,7 +1340,14 @@ pub fn check_c20(rep: &mut Report) {
             rhs.push(r);
         }
     }
-    let mk = std_checks(c01_step, noop_term);
+    // besides the comparison: "stays alive afterwards exactly when one of those dependencies is (or aggregates) a
+    // service" is checked on each side by itself (the terminal oracle of C04: exited, or parked under a service)
+    fn c20_term(sys: &Sys, ctx: &mut Ctx) {
+        if failures(&sys.events_from(0)).is_empty() {
+            c04_terminal(sys, ctx);
+        }
+    }
+    let mk = std_checks(c01_step, c20_term);
     let out_l = sweep(lhs.clone(), &mk, dl, 3_000_000);
     let out_r = sweep(rhs.clone(), &mk, dl, 3_000_000);
     let mut compared = 0u64;
